@@ -11,7 +11,6 @@ import (
 	"github.com/lianxiangcloud/linkchain/libs/common"
 	dbm "github.com/lianxiangcloud/linkchain/libs/db"
 	"github.com/lianxiangcloud/linkchain/types"
-	"github.com/xunleichain/tc-wasm/vm"
 
 	"verif/h/internal/chainkit"
 	"verif/h/internal/core"
@@ -458,18 +457,7 @@ func (cc *chainCase) variant(height uint64, block *types.Block, P, cold, warm *c
 		return false
 	}
 	if mut == "append-upgrade" && ref.Has {
-		st := ref.Comp["receipt-status"]
-		st = st[strings.LastIndex(st, ",")+1:]
-		c.Count("variant_upgrade:"+kinds[len(kinds)-1]+":status"+numRe.ReplaceAllString(st, "N"), 1)
-		c.Logf("height %d append-upgrade variant %s: last receipt %s", height, kinds[len(kinds)-1], st)
-		if c.Verbose {
-			vm.AppCache.Range(func(k, v interface{}) bool {
-				if a, ok := v.(*vm.APP); ok && (k.(string) == cfg.ContractFoundationAddr.String()) {
-					c.Logf("   AppCache[%v] = %p name %s bodies %d", k, a, a.Name, len(a.Module.Code.Bodies))
-				}
-				return true
-			})
-		}
+		c.Count("variant_upgrades_executed", 1)
 	}
 	if ref != nil && ref.OK {
 		c.Count("variants_accepted", 1)
